@@ -4,7 +4,7 @@
 cd "$(dirname "$0")/.."
 for d in seeded/C*; do
   n=$(basename $d); pid=${n%%_*}; tag=""
-  case $n in *_b) tag="--tag b";; *_c) tag="--tag c";; *_d) tag="--tag d";; *_e) tag="--tag e";; *_f) tag="--tag f";; esac
+  case $n in *_b) tag="--tag b";; *_c) tag="--tag c";; *_d) tag="--tag d";; *_e) tag="--tag e";; *_f) tag="--tag f";; *_g) tag="--tag g";; esac
   out=$(/venv/bin/python tools/seedtest.py $pid $tag --no-suite 2>&1 | grep -v conda)
   caught=$(echo "$out" | grep -c '"check_caught": true')
   first=$(echo "$out" | grep '"check_first_violation"' | sed 's/.*what: //' | cut -c1-160)
